@@ -98,6 +98,7 @@ def gen_cfg(prop, tier, seed, i):
         cfg['big_args'] = [cfg['batch'] - 30 if cfg['batch'] > 40 else 40, cfg['batch'] + 10, 3 * cfg['batch'] + 5]
         cfg['big_args'] = [min(x, 20000) for x in cfg['big_args']]
     cfg['msg_cap'] = 150000
+    cfg['epipe'] = 0.25          # chance that a send() towards an end that is gone fails on the spot (EPIPE)
     if prop in ('C01', 'C02', 'C03', 'C04'):
         # read-only nodes attached to some clusters: they forward commands, receive the log, and must never count
         cfg['n_ro'] = pick(random.Random(h32('ro', prop, seed, i)), [0, 0, 0, 1, 2])
@@ -134,6 +135,22 @@ def gen_cfg(prop, tier, seed, i):
             cfg['votekill'] = pick(r2, [0.0, 0.5])
             cfg['n_ro'] = 0
             cfg['ext'] = ['recovery']
+            if prop == 'C02':
+                # elections close to each other, voters killed right after they voted: what a restarted voter does in the term it
+                # voted in decides whether a callback of that term stays true
+                cfg['votekill'] = pick(r2, [0.3, 0.7])
+                cfg['raft_min'], cfg['raft_max'] = pick(r2, [(0.4, 1.4), (0.31, 0.5), (0.4, 0.45)])
+                w['heal'] = max(w['heal'], 0.6)
+            if r2.random() < 0.5:
+                # ... with log compaction and snapshot transfers in several pieces (dump files: a journal alone cannot be restarted
+                # after a compaction, the listed C06 finding)
+                cfg['journal'] = 'file+dump'
+                cfg['compact_min'] = pick(r2, [5, 20])
+                w['compact'] = pick(r2, [0.4, 1.2])
+                cfg['chunk'] = pick(r2, [1, 7, 50, 1000])
+                w['partition'] = max(w['partition'], 0.6)
+                w['heal'] = max(w['heal'], 0.6)
+    if prop == 'C02':
         w['partition'] = max(w['partition'], 0.4)
         w['submit'] = max(w['submit'], 6)
     if prop == 'C04':
@@ -530,17 +547,18 @@ def replay(prop, path):
 
 
 def lock_direct_case(seed, i):
-    from .locks import direct_case
+    from .locks import direct_case, direct_delay_case
     r = random.Random(h32('lockdirect', seed, i))
     res = {'runs': 1, 'violations': [], 'sit': {'lock_table_direct': 1}, 'obs': {}, 'escaped': {}, 'inconclusive': None, 'other_props': {}}
     nops = 0
-    for k in range(40):
-        msg, n = direct_case(r)
+    for k in range(80):
+        msg, n = direct_case(r) if k % 2 == 0 else direct_delay_case(r)
         nops += n
         if msg is not None:
             path = os.path.join(VERIF_DIR, 'replays', 'C16-direct-%d-%d.json' % (seed, i))
             os.makedirs(os.path.dirname(path), exist_ok=True)
-            rec = {'prop': 'C16', 'kind': 'lock_table_differs_from_reference', 'msg': msg, 'facts': {}, 'replay': path}
+            rec = {'prop': 'C16', 'kind': 'lock_table_differs_from_reference' if k % 2 == 0 else 'two_holders_after_delayed_request',
+                   'msg': msg, 'facts': {}, 'replay': path}
             with open(path, 'w') as f:
                 json.dump({'property': 'C16', 'engine': 'rv.e1', 'direct': True, 'seed': seed, 'case': i, 'violation': rec}, f, indent=1)
             res['violations'].append(rec)
